@@ -135,6 +135,12 @@ VARIANTS: List[Variant] = [
     M("exh-rank-const", EXH, "results.update(Candidate(output.cost(), output))", "results.update(Candidate(0, output))", "RESULT-SCOPE"),
     M("exh-drop-left", EXH, "                    node: parent_species,\n                    **map_left.object_species,",
       "                    node: parent_species,", "DECODE-COMPLETE"),
+    M("lca-one-child", REC, "rec_input.species_lca(rec[left], rec[right])", "rec_input.species_lca(rec[left], rec[left])", "LCA-PROPAGATE"),
+    M("lca-no-oracle", REC, "rec[node] = rec_input.species_lca(rec[left], rec[right])", "rec[node] = rec[left]", "LCA-PROPAGATE"),
+    M("lca-preorder", REC, 'for node in rec_input.object_tree.traverse("postorder"):\n        if node.is_leaf():\n            species',
+      'for node in rec_input.object_tree.traverse("preorder"):\n        if node.is_leaf():\n            species', "TRAVERSAL"),
+    T("twin-lca-star", REC, "            left, right = node.children\n            rec[node] = rec_input.species_lca(rec[left], rec[right])",
+      "            rec[node] = rec_input.species_lca(*(rec[child] for child in node.children))"),
     # ---------------- SPFS ------------------------------------------------
     M("spfs-sentinel-scaled", SPFS,
       "                conserv_segments = subseq_segment_dist(\n                    child_synteny,\n                    root_synteny,\n                    edges=True,\n                )\n\n                if conserv_segments < 0:",
